@@ -14,7 +14,11 @@ Probe == <<[op |-> "query", t |-> 99, name |-> "n99.test", qt |-> 1], [op |-> "d
 Tmo == <<[op |-> "adv", to |-> "deadline"], [op |-> "process"]>>
 Base == [nsrv |-> 2, tries |-> 2, timeout |-> 1000, seed |-> 1]
 
+RECURSIVE Qs(_, _)
+Qs(i, n) == IF i > n THEN <<>> ELSE <<Q(i, "query")>> \o Qs(i + 1, n)
+
 Scenarios == {
+  [name |-> "many_outstanding", cfg |-> Base, steps |-> Qs(1, 15) \o <<R(3, "ok"), R(14, "ok"), [op |-> "cancel"]>>],
   [name |-> "query_ok", cfg |-> Base, steps |-> <<Q(1, "query"), R(1, "ok")>>],
   [name |-> "send_servfail_retry", cfg |-> Base, steps |-> <<Q(1, "send"), R(1, "servfail"), R(1, "ok")>>],
   [name |-> "legacy_query", cfg |-> Base, steps |-> <<Q(1, "lquery"), R(1, "ok")>>],
